@@ -1225,8 +1225,14 @@ where
         let bits = self.bits.as_ref();
 
         if bit_index + self.bit_width <= W::BITS {
+            #[cfg(feature = "sux_verif")]
+            crate::verif::sched_point(10, bits.get_unchecked(word_index) as *const _ as *const u8);
             (bits.get_unchecked(word_index).load(order) >> bit_index) & self.mask
         } else {
+            #[cfg(feature = "sux_verif")]
+            crate::verif::sched_point(11, bits.get_unchecked(word_index) as *const _ as *const u8);
+            #[cfg(feature = "sux_verif")]
+            crate::verif::sched_point(12, bits.get_unchecked(word_index + 1) as *const _ as *const u8);
             ((bits.get_unchecked(word_index).load(order) >> bit_index)
                 | (bits.get_unchecked(word_index + 1).load(order) << (W::BITS - bit_index)))
                 & self.mask
@@ -1258,12 +1264,16 @@ where
 
         if bit_index + self.bit_width <= W::BITS {
             // this is consistent
+            #[cfg(feature = "sux_verif")]
+            crate::verif::sched_point(0, bits.get_unchecked(word_index) as *const _ as *const u8);
             let mut current = bits.get_unchecked(word_index).load(order);
             loop {
                 let mut new = current;
                 new &= !(self.mask << bit_index);
                 new |= value << bit_index;
 
+                #[cfg(feature = "sux_verif")]
+                crate::verif::sched_point(1, bits.get_unchecked(word_index) as *const _ as *const u8);
                 match bits
                     .get_unchecked(word_index)
                     .compare_exchange(current, new, order, order)
@@ -1272,7 +1282,11 @@ where
                     Err(e) => current = e,
                 }
             }
+            #[cfg(feature = "sux_verif")]
+            crate::verif::sched_point(0x101, bits.get_unchecked(word_index) as *const _ as *const u8);
         } else {
+            #[cfg(feature = "sux_verif")]
+            crate::verif::sched_point(2, bits.get_unchecked(word_index) as *const _ as *const u8);
             let mut word = bits.get_unchecked(word_index).load(order);
             // try to wait for the other thread to finish
             fence(Ordering::Acquire);
@@ -1281,6 +1295,8 @@ where
                 new &= (W::ONE << bit_index) - W::ONE;
                 new |= value << bit_index;
 
+                #[cfg(feature = "sux_verif")]
+                crate::verif::sched_point(3, bits.get_unchecked(word_index) as *const _ as *const u8);
                 match bits
                     .get_unchecked(word_index)
                     .compare_exchange(word, new, order, order)
@@ -1289,6 +1305,8 @@ where
                     Err(e) => word = e,
                 }
             }
+            #[cfg(feature = "sux_verif")]
+            crate::verif::sched_point(0x103, bits.get_unchecked(word_index) as *const _ as *const u8);
             fence(Ordering::Release);
 
             // ensures that the compiler does not reorder the two atomic operations
@@ -1298,6 +1316,8 @@ where
             // should try to syncronize the threads as much as possible
             compiler_fence(Ordering::SeqCst);
 
+            #[cfg(feature = "sux_verif")]
+            crate::verif::sched_point(4, bits.get_unchecked(word_index + 1) as *const _ as *const u8);
             let mut word = bits.get_unchecked(word_index + 1).load(order);
             fence(Ordering::Acquire);
             loop {
@@ -1305,6 +1325,8 @@ where
                 new &= !(self.mask >> (W::BITS - bit_index));
                 new |= value >> (W::BITS - bit_index);
 
+                #[cfg(feature = "sux_verif")]
+                crate::verif::sched_point(5, bits.get_unchecked(word_index + 1) as *const _ as *const u8);
                 match bits
                     .get_unchecked(word_index + 1)
                     .compare_exchange(word, new, order, order)
@@ -1313,6 +1335,8 @@ where
                     Err(e) => word = e,
                 }
             }
+            #[cfg(feature = "sux_verif")]
+            crate::verif::sched_point(0x105, bits.get_unchecked(word_index + 1) as *const _ as *const u8);
             fence(Ordering::Release);
         }
     }
